@@ -40,6 +40,31 @@ func beginViews(cs *fw.Case, share float64) {
 	vx.inputKind = views.PickMatrix(r)
 	vx.kinds = map[string]string{}
 	vx.isGuards, vx.inGuards = nil, nil
+	// how the InSitu struct is re-used for the second call: same buffers, or the
+	// caller keeps the first results and sets the result fields to nil / to new matrices
+	rr := prng.For(cs.C.Seed, cs.Monitor+".reuse", cs.Index)
+	reuseMode = []string{"same", "same", "nil", "new"}[rr.Intn(4)]
+	replaceHook = nil
+}
+
+// reuseMode and replaceHook (set by the case lists): what the caller does to the
+// result fields of the InSitu struct between the two calls of a case.
+var reuseMode string
+var replaceHook func(mode string)
+
+// fresh returns nil (mode "nil") or a new owning matrix (mode "new").
+func freshM(t elemT, mode string, rows, cols int) ad.Matrix {
+	if mode == "new" {
+		return ad.NullDenseMatrix(t.T, rows, cols)
+	}
+	return nil
+}
+
+func freshV(t elemT, mode string, n int) ad.Vector {
+	if mode == "new" {
+		return ad.NullDenseVector(t.T, n)
+	}
+	return nil
 }
 
 func viewsActive() bool { return vx.on && !vx.suspended }
